@@ -793,12 +793,22 @@ def main():
     a = ap.parse_args()
     seed = int(os.environ.get("VERIF_SEED", "0") or 0)
     if a.replay:
+        # replay: print the recorded violation, then run the concrete searches of this property again on the REAL code of the
+        # current tree (they are deterministic for a fixed seed) and say whether a failing input is still found
         doc = json.load(open(a.replay))
         print(json.dumps(doc, indent=1))
-        if doc.get("failing_input"):
-            build_replay()
-            rep = run_replay(["rerun", json.dumps(doc["failing_input"])])
-            print("replay on real code:", json.dumps(rep))
+        pid = doc.get("property", a.pid)
+        if build_replay():
+            seed = int(os.environ.get("VERIF_SEED", "0"))
+            runs = [("search " + pid, run_replay(["search", pid, "any", "any", str(seed)], timeout=900))]
+            for sname, sfn, swhat in BOUNDED_STANDINS.get(pid, []):
+                runs.append(("standin " + sname, run_replay(["standin", sname, str(seed)], timeout=900)))
+            still = [r for _, r in runs if r and r.get("found")]
+            for name, r in runs:
+                print(f"replay on real code (vreplay {name}):", json.dumps(r)[:1500])
+            print("failing input reproduced on the current tree:", "yes" if still else "no (the recorded input came from a different tree, or the obligation has no concrete search)")
+        else:
+            print("replay binary could not be built")
         sys.exit(0)
     try:
         rc, lines, ev = check_property(a.pid, a.tier, seed)
